@@ -351,3 +351,145 @@ def rule_conversion_ops(ctx: Ctx) -> None:
         ctx.fail("move.filters", m, fn,
                  f"str_to_op builds {bad or 'operations'} with reg_type {sorted(types)}; the conversion gates appended by the alternate-target "
                  f"solver must be single-qubit gates on photon registers", func="str_to_op", construct="str_to_op: conversion gate kinds")
+
+
+# --------------------------------------------------------------------------- C01 kron layout (qubit position of an embedded gate)
+
+
+def _subst_env(body: List[ast.stmt]) -> Dict[str, ast.AST]:
+    """sequential symbolic environment of a straight-line statement list (later assignments see earlier ones)."""
+    import copy as _copy
+    env: Dict[str, ast.AST] = {}
+
+    class Sub(ast.NodeTransformer):
+        def visit_Name(self, node):
+            if isinstance(node.ctx, ast.Load) and node.id in env:
+                return _copy.deepcopy(env[node.id])
+            return node
+
+    for st in body:
+        if isinstance(st, ast.Assign) and len(st.targets) == 1 and isinstance(st.targets[0], ast.Name):
+            env[st.targets[0].id] = Sub().visit(_copy.deepcopy(st.value))
+    return env
+
+
+def _kron_factors(e: ast.AST) -> List[ast.AST]:
+    if isinstance(e, ast.Call) and call_attr(e) == "kron" and len(e.args) == 2:
+        return _kron_factors(e.args[0]) + _kron_factors(e.args[1])
+    return [e]
+
+
+def _eye_exponent(e: ast.AST) -> Optional[linear.Lin]:
+    """np.eye(2**k) / np.identity(2**k) -> linear form of k;  np.eye(2) / np.identity(2) -> None (a one-qubit factor)."""
+    if isinstance(e, ast.Call) and call_attr(e) in ("eye", "identity") and len(e.args) == 1:
+        a = e.args[0]
+        if isinstance(a, ast.BinOp) and isinstance(a.op, ast.Pow) and isinstance(a.left, ast.Constant) and a.left.value == 2:
+            return linear.lin(a.right)
+    return None
+
+
+def _layout(factors: List[ast.AST], roles: Dict[str, str]):
+    """-> (positions: role -> linear form of the qubit index, total qubits as linear form, unknown factors)"""
+    pos: linear.Lin = {"": 0}
+    out: Dict[str, linear.Lin] = {}
+    unknown = []
+    for f in factors:
+        k = _eye_exponent(f)
+        if k is not None:
+            pos = linear._add(pos, k, 1)
+            continue
+        t = norm(f)
+        role = None
+        for pat, r in roles.items():
+            if pat in t:
+                role = r
+        if role is None:
+            unknown.append(t)
+        else:
+            out[role] = dict(pos)
+        pos = linear._add(pos, {"": 1}, 1)
+    return out, pos, unknown
+
+
+def rule_kron_layout(ctx: Ctx) -> None:
+    repo = ctx.repo
+    m = repo.module(DMF)
+    # one-qubit embedding
+    fn = repo.anchor(DMF, "get_one_qubit_gate")
+    ctx.touch(m, fn)
+    n, q, g = func_params(fn)[:3]
+    env = _subst_env(fn.body)
+    ret = [r for r in fn.body if isinstance(r, ast.Return)]
+    expr = env.get(norm(ret[-1].value), ret[-1].value) if ret else None
+    if expr is None:
+        raise AnalysisError("get_one_qubit_gate: return not found")
+    where, total, unk = _layout(_kron_factors(expr), {g: "gate"})
+    if not unk and linear.equal(where.get("gate"), {q: 1}) and linear.equal(total, {n: 1}):
+        ctx.ok("kron.layout", m, ret[-1], what="one-qubit gate embedded at qubit_position, total n_qubits")
+    else:
+        ctx.fail("kron.layout", m, fn,
+                 f"get_one_qubit_gate places the gate at tensor position {linear.show(where.get('gate', {}))} of {linear.show(total)} qubits; "
+                 f"it must be position `{q}` of `{n}` (identity on 2**{q} before, 2**({n}-{q}-1) after)", func="get_one_qubit_gate",
+                 construct=f"get_one_qubit_gate: position {linear.show(where.get('gate', {}))} of {linear.show(total)}")
+    # controlled gate: both orderings
+    fn = repo.anchor(DMF, "get_two_qubit_controlled_gate")
+    ctx.touch(m, fn)
+    n, c, t, g = func_params(fn)[:4]
+    brs = [x for x in fn.body if isinstance(x, ast.If)]
+    if not brs:
+        raise AnalysisError("get_two_qubit_controlled_gate: ordering branches not found")
+    from ..chains import chain_of
+    seen = 0
+    for test, body, node in chain_of(brs[0]):
+        if test is None or any(isinstance(s, ast.Raise) for s in body):
+            continue
+        env = _subst_env(body)
+        var = [k for k in env if isinstance(env[k], ast.Call) and call_attr(env[k]) == "kron"]
+        if not var:
+            raise AnalysisError("get_two_qubit_controlled_gate: kron chain not found in a branch")
+        where, total, unk = _layout(_kron_factors(env[var[-1]]), {"sigmaz()": "control", g: "target"})
+        seen += 1
+        ok = not unk and linear.equal(where.get("control"), {c: 1}) and linear.equal(where.get("target"), {t: 1}) and linear.equal(total, {n: 1})
+        if ok:
+            ctx.ok("kron.layout", m, node, what=f"branch `{norm(test)}`: (I-Z) at control, (G-I) at target, total n_qubits")
+        else:
+            ctx.fail("kron.layout", m, node,
+                     f"in the `{norm(test)}` branch the projector factor sits at tensor position {linear.show(where.get('control', {}))} and the gate "
+                     f"factor at {linear.show(where.get('target', {}))} of {linear.show(total)} qubits (unrecognised: {unk}); they must sit at "
+                     f"`{c}` and `{t}` of `{n}`", func="get_two_qubit_controlled_gate",
+                     construct=f"get_two_qubit_controlled_gate[{norm(test)}]: control@{linear.show(where.get('control', {}))} target@{linear.show(where.get('target', {}))}")
+    if seen != 2:
+        raise AnalysisError("get_two_qubit_controlled_gate: expected two ordering branches")
+    fin = [s for s in fn.body if isinstance(s, ast.Assign) and isinstance(s.value, ast.BinOp) and isinstance(s.value.op, ast.Add)]
+    good = False
+    if fin:
+        l, r = fin[-1].value.left, fin[-1].value.right
+        good = _eye_exponent(l) is not None and linear.equal(_eye_exponent(l), {n: 1}) and isinstance(r, ast.BinOp) and isinstance(r.op, ast.Div) \
+            and isinstance(r.right, ast.Constant) and r.right.value == 2
+    if good:
+        ctx.ok("kron.layout", m, fin[-1], what="I + (I-Z)(x)(G-I)/2 = |0><0|(x)I + |1><1|(x)G")
+    else:
+        ctx.fail("kron.layout", m, fn, "the controlled gate is no longer assembled as identity + ((I - Z) (x) (G - I)) / 2", func="get_two_qubit_controlled_gate",
+                 construct="get_two_qubit_controlled_gate: final assembly")
+    # measurement projectors: P_k at the measured register, identities elsewhere, returned as [P0, P1]
+    fn = repo.anchor(DMF, "projectors_zbasis")
+    ctx.touch(m, fn)
+    n, r_ = func_params(fn)[:2]
+    projs = {}
+    for st in fn.body:
+        if isinstance(st, ast.Assign) and isinstance(st.value, ast.Call) and call_attr(st.value) == "reduce" and len(st.value.args) == 2 \
+                and isinstance(st.value.args[1], ast.ListComp):
+            lc = st.value.args[1]
+            e = lc.elt
+            it = lc.generators[0]
+            if isinstance(e, ast.IfExp) and norm(e.test) in (f"{norm(it.target)} == {r_}", f"{r_} == {norm(it.target)}") \
+                    and norm(it.iter) == f"range({n})" and call_attr(e.orelse) in ("identity", "eye") and norm(st.value.args[0]).endswith("kron"):
+                projs[norm(st.targets[0])] = call_attr(e.body)
+    ret = [x for x in fn.body if isinstance(x, ast.Return)]
+    order_ok = ret and isinstance(ret[0].value, ast.List) and [projs.get(norm(x)) for x in ret[0].value.elts] == ["projector_ketz0", "projector_ketz1"]
+    if order_ok:
+        ctx.ok("kron.layout", m, ret[0], what="projectors [P0, P1] at the measured register")
+    else:
+        ctx.fail("kron.layout", m, fn, "projectors_zbasis must return [P0, P1] with projector_ketz0 / projector_ketz1 at position measure_register "
+                                       "and identities elsewhere (apply_measurement indexes the list by outcome)", func="projectors_zbasis",
+                 construct="projectors_zbasis: layout / order")
